@@ -96,7 +96,7 @@ def exStore : Store :=
       ("Rotate", .atom (.int (-90))),
       ("MediaBox", .arr [.atom (.int 0), .atom (.int 0), .atom (.ref 9), .atom (.int 100)])]),
    (3, .node [("Type", .atom (.name "Pages")), ("Kids", .atom (.ref 8)),
-      ("Resources", .dict [("Marker", .int 7)])]),
+      ("Resources", .dict [("Marker", .atom (.int 7))])]),
    (8, .val (.arr [.atom (.ref 4)])),
    (9, .val (.atom (.int 200))),
    (4, .node [("Type", .atom (.name "Page"))]),
@@ -272,8 +272,8 @@ object number, the direct Pages node is ignored. -/
 example :
     let g : Store :=
       [(2, .node [("Type", .atom (.name "Pages")),
-            ("Kids", .arr [.atom (.ref 3), .atom (.ref 2), .dict [("Type", .name "Page")], .atom (.ref 3),
-              .dict [("Type", .name "Pages"), ("Kids", .ref 2)], .atom (.ref 4)])]),
+            ("Kids", .arr [.atom (.ref 3), .atom (.ref 2), .dict [("Type", .atom (.name "Page"))], .atom (.ref 3),
+              .dict [("Type", .atom (.name "Pages")), ("Kids", .atom (.ref 2))], .atom (.ref 4)])]),
        (3, .node [("Type", .atom (.name "Page"))]),
        (4, .node [("Type", .atom (.name "Pages")), ("Kids", .arr [.atom (.ref 2), .atom (.ref 5)])]),
        (5, .node [("Type", .atom (.name "Page"))])]
@@ -283,8 +283,39 @@ example :
       = ([some 3, none, some 5], [5, 4, 3, 2], none) := by
   decide
 
+/-- **Values nest to any depth.** A Page dictionary written directly into Kids — with a direct
+MediaBox array, a direct Resources dictionary holding a direct Font dictionary — is yielded without
+object number, its attributes being its own or the inherited ones; an array written into Kids is
+ignored, whatever it contains. (Outside the property's domain; part of the model's value space.) -/
+theorem C04_direct_kid (g : Store) (f : Nat) (kvs : Flat) (xs : List Val) (P : Dict) (vis : List Nat)
+    (hty : isName (nodeType kvs) "Page" = true) :
+    visit g (f + 1) (.dict kvs) P vis = ⟨[⟨none, overlay P kvs⟩], vis, none⟩ ∧
+    visit g (f + 1) (.arr xs) P vis = ⟨[], vis, none⟩ := by
+  have hne : isName (nodeType kvs) "Pages" = false := by
+    simp only [isName, beq_iff_eq] at hty ⊢
+    rw [hty]; decide
+  constructor
+  · simp [visit, nodeOf, liftFlat, nodeType_overlay, hty, hne]
+  · have h1 : nodeType (overlay P []) = none := by rw [nodeType_overlay]; rfl
+    simp [visit, nodeOf, h1, isName]
+
+example :
+    let g : Store :=
+      [(2, .node [("Type", .atom (.name "Pages")), ("Rotate", .atom (.int 90)),
+            ("Kids", .arr [.arr [.atom (.ref 2)],
+              .dict [("Type", .atom (.name "Page")),
+                     ("MediaBox", .arr [.atom (.int 300), .atom (.int 2), .atom (.int 100), .atom (.int 10)]),
+                     ("Resources", .dict [("Font", .dict [("F1", .atom (.ref 3))]), ("Marker", .atom (.int 7))])],
+              .atom (.ref 5)])]),
+       (5, .node [("Type", .atom (.name "Page")),
+            ("CropBox", .arr [.atom (.int 0), .atom (.int 0), .arr [.atom (.int 1)], .atom (.int 9)])])]
+    (createPages g [2, 5] 3 [("Pages", .atom (.ref 2))]).1 =
+      [⟨none, 90, (100, 2, 300, 10), (100, 2, 300, 10), some 7⟩,
+       ⟨some 5, 90, US_LETTER, US_LETTER, none⟩] := by
+  decide
+
 /-- `catalog["Pages"]` written as a direct Page dictionary: one page without object number. -/
-example : (createPages [] [] 1 [("Pages", .dict [("Type", .name "Page"), ("Rotate", .int 90)])]).1.map
+example : (createPages [] [] 1 [("Pages", .dict [("Type", .atom (.name "Page")), ("Rotate", .atom (.int 90))])]).1.map
     (fun p => (p.id, p.rotate)) = [(none, 90)] := by decide
 
 /-- **`resolve1` terminates.** The loop with the `seen` set never exhausts the budget "number of
